@@ -1,9 +1,9 @@
-package aead
+package wec
 
 import "testing"
 
 func TestSelf(t *testing.T) {
-	if err := SelfTestSparse(); err != nil {
+	if err := SelfTest(); err != nil {
 		t.Fatal(err)
 	}
 }
